@@ -1,6 +1,7 @@
 import Pamqp.Spec.Wire
 import Pamqp.Spec.Defs
 import Pamqp.Proofs.EnvelopeLemma
+import Pamqp.Proofs.FrameGrammar
 /-!
 # C05 at frame level — method frames and content headers as a peer may send them
 Arguments are wire items `Spec.AV` (a maximal run of bits sharing an octet whose unused high bits
@@ -15,7 +16,7 @@ open Pamqp
 theorem C05_method_args (avs : List Spec.AV) (hwf : ∀ a ∈ avs, a.WF) (hmax : Spec.runsMaximal avs = true)
     (vals : List PyVal) (hv : Spec.avsValues avs = some vals) (rest : Bytes) :
     Base.unmarshalLoop 0 false (avs.flatMap Spec.AV.wire ++ rest) (avs.flatMap Spec.AV.types) = .ok vals := by
-  sorry
+  exact Proofs.FrameGrammar.method_args avs hwf hmax vals hv rest
 
 /-- a whole method frame: any catalogue with `catWF`, any method of it, any grammar-valid items of
 the method's argument types, any channel, any trailing bytes: decoded to that class with exactly
@@ -27,7 +28,7 @@ theorem C05_method_frame (cat : Cat) (hcat : Spec.catWF cat = true) (spec : Meth
     (ch : Nat) (hc : ch < 65536) (hsz : 4 + (avs.flatMap Spec.AV.wire).length < 2 ^ 32) (rest : Bytes) :
     Frame.unmarshal cat (Proofs.envBytes 1 ch (beN 4 spec.index.toNat ++ avs.flatMap Spec.AV.wire) ++ rest) =
       .ok ((avs.flatMap Spec.AV.wire).length + 12, ch, .method spec vals) := by
-  sorry
+  exact Proofs.FrameGrammar.method_frame cat hcat spec hs avs hwf hmax hty vals hv ch hc hsz rest
 
 /-- flag words of a content header: every word but the last has the continuation bit -/
 def wordsWF : List Nat → Prop
@@ -63,6 +64,26 @@ theorem C05_header_frame (cat : Cat) (hwf : Spec.flagsWF cat.props = true)
         (beN 2 classId ++ beN 2 weight ++ beN 8 size ++ (w0 :: ws).flatMap (beN 2) ++ items.flatMap Spec.AV.wire) ++ rest) =
       .ok (12 + 2 * (ws.length + 1) + (items.flatMap Spec.AV.wire).length + 8, ch,
            .header (.int classId) (.int weight) (.int size) (fillProps cat.props w0 vals)) := by
-  sorry
+  have hw' : ∀ l : List Nat, wordsWF l → Proofs.FrameGrammar.WordsOK l := by
+    intro l
+    induction l with
+    | nil => intro h; exact h
+    | cons w l ih =>
+      cases l with
+      | nil => intro h; exact h
+      | cons w' l' => intro h; exact ⟨h.1, h.2.1, ih h.2.2⟩
+  have hfill : ∀ (ps : List PropSpec) (vs : List PyVal),
+      fillProps ps w0 vs = Proofs.FrameGrammar.fillProps' ps w0 vs := by
+    intro ps
+    induction ps with
+    | nil => intro vs; rfl
+    | cons p ps ih =>
+      intro vs
+      cases vs with
+      | nil => simp only [fillProps, Proofs.FrameGrammar.fillProps', ih]
+      | cons v vs' => simp only [fillProps, Proofs.FrameGrammar.fillProps', ih]
+  rw [hfill]
+  exact Proofs.FrameGrammar.header_frame cat hwf classId weight size hci hw hsize w0 ws (hw' _ hwords)
+    items hitems hty vals hv ch hc rest hsz
 
 end Pamqp.Props
